@@ -173,16 +173,18 @@ PROFILES = {
     # parameter, the diagnostics of a missing payload; it calls `as_data_field` and `assert_no_redundant_params` (same file)
     "replynew": {"src": ("sylvia-derive", "src", "contract", "communication", "reply.rs"), "out": "ReplyNewFns.lean", "ns": "Extracted.ReplyNewFns",
                  "imports": ["Sylvia.Model.RustSem", "Sylvia.Model.RustExtern", "Sylvia.Extracted.ReplyOnFns"], "opens": "open RustSem Extracted.ReplyOnFns\nopen RustExtern (ParsedAttrs)",
-                 "vars": "variable {MsgVariant MsgField MsgAttr Attr P D Ident : Type}", "str": "String",
-                 "only": ["assert_no_redundant_params", "ReplyData.new"], "only_enums": [], "only_structs": ["ReplyData"],
+                 "vars": "variable {MsgVariant MsgField MsgAttr Attr P D Ident FieldTy : Type} [DecidableEq FieldTy]", "str": "String",
+                 "only": ["assert_no_redundant_params", "ReplyData.new", "ReplyData.merge"], "only_enums": [], "only_structs": ["ReplyData"],
                  "trait_only": ["MsgVariant.as_data_field"], "diags": True, "tparams": ["Ident", "MsgField"],
                  "type_vars": ["MsgVariant", "MsgField", "Ident"],
                  "extern_types": {"ReplyOn": "ReplyOn"},
                  "extern_enum_fields": {"ReplyOn": {"Success": [], "Error": [], "Always": []}},
                  "leading_binders": "(variantFields : MsgVariant → List MsgField) (variantMsgAttr : MsgVariant → MsgAttr) (attrReplyOn : MsgAttr → ReplyOn) "
-                                    "(fieldAttrs : MsgField → List Attr) (parsedAttrs : List Attr → ParsedAttrs P D) (variantFnName : MsgVariant → Ident)",
-                 "leading_args": "variantFields variantMsgAttr attrReplyOn fieldAttrs parsedAttrs variantFnName",
-                 "extern_methods": {"fields": "variantFields", "msg_attr": "variantMsgAttr", "reply_on": "attrReplyOn", "attrs": "fieldAttrs", "function_name": "variantFnName"},
+                                    "(fieldAttrs : MsgField → List Attr) (parsedAttrs : List Attr → ParsedAttrs P D) (variantFnName : MsgVariant → Ident) "
+                                    "(fieldTy : MsgField → FieldTy)",
+                 "leading_args": "variantFields variantMsgAttr attrReplyOn fieldAttrs parsedAttrs variantFnName fieldTy",
+                 "extern_methods": {"fields": "variantFields", "msg_attr": "variantMsgAttr", "reply_on": "attrReplyOn", "attrs": "fieldAttrs", "function_name": "variantFnName",
+                                    "ty": "fieldTy"},
                  "extern_unit_methods": ["validate_fields_attributes"],
                  "extern_calls": {"ParsedSylviaAttributes::new": "parsedAttrs", "NUMBER_OF_ALLOWED_RAW_PAYLOAD_FIELDS": "1", "NUMBER_OF_ALLOWED_DATA_FIELDS": "1"}},
     # the bridge to chain-custom types (C11): `IntoMsg::into_msg` and `IntoResponse::into_response`, trait methods on cosmwasm_std's
@@ -430,8 +432,10 @@ class FnTr:
         if t == "return":
             if self.depth:
                 raise Unsupported("`return` in expression position inside a loop")
+            if e[1] is None and self.mut_self:
+                return self.ret_lines("self", None)
             val = e[1] if e[1] is not None else ["unit"]
-            return self.ex(val, lambda v: [".ok %s" % v])
+            return self.ex(val, lambda v: self.ret_lines(v, None))
         if t == "field":
             if e[2] in self.mod.profile.get("newtype_fields", []):
                 return self.ex(e[1], k)
@@ -561,6 +565,20 @@ class FnTr:
                 return self.ex(e[1], lambda r: k("(toStr %s)" % r))
             if name in ("to_owned", "clone") and not e[3]:
                 return self.ex(e[1], k)
+            if name == "first" and not e[3]:
+                return self.ex(e[1], lambda r: k("(List.head? %s)" % r))
+            if name == "for_each" and len(e[3]) == 1 and e[3][0][0] == "closure" and self.mod.profile.get("diags") \
+                    and e[1][0] == "mcall" and e[1][2] == "zip" and len(e[1][3]) == 1:
+                # `a.iter().zip(b.iter()).for_each(|(x, y)| { if c { emit_error!(..) } })`: one diagnostic per pair satisfying `c`, in order
+                cl = e[3][0]
+                body = cl[2][1] if cl[2][0] == "block" else None
+                if not (body and len(body) == 1 and body[0][0] == "sexpr" and body[0][1][0] == "if" and body[0][1][3] is None
+                        and len(body[0][1][2]) == 1 and body[0][1][2][0][0] == "sexpr" and body[0][1][2][0][1][0] == "emit_error"):
+                    raise Unsupported("for_each with a body other than `if c { emit_error!(..) }`")
+                cond, msg = body[0][1][1], body[0][1][2][0][1][1]
+                cpat = self.pat(cl[1][0])
+                return self.ex(e[1][1], lambda a_: self.ex(e[1][3][0], lambda b_: [
+                    "let diags := diags ++ (List.filterMap (fun %s => if %s then some %s else none) (List.zip %s %s))" % (cpat, self.pure(cond), lean_str(msg), a_, b_)] + k("()")))
             if name == "skip" and len(e[3]) == 1:
                 return self.ex(e[1], lambda r: self.ex(e[3][0], lambda n: k("(List.drop %s %s)" % (n, r))))
             if name == "collect" and not e[3] and ((e[4] if len(e) > 4 else None) or "").replace(" ", "") == "Vec<_>" and e[1][0] in ("path", "mcall") \
@@ -849,6 +867,9 @@ class FnTr:
             rest = lambda: go(i + 1)
             if st[0] == "slet":
                 pat, init = st[1], st[2]
+                if pat[0] == "ptuple" and init is not None and all(x[0] in ("pid", "wild") for x in pat[1]):
+                    ptxt = "(%s)" % ", ".join(lid(x[1]) if x[0] == "pid" else "_" for x in pat[1])
+                    return self.ex(init, lambda v: ["let %s := %s" % (ptxt, v)] + rest())
                 if pat[0] != "pid" or init is None:
                     raise Unsupported("let pattern %s" % pat)
                 x = lid(pat[1])
@@ -915,6 +936,8 @@ class FnTr:
         if t == "unit":
             return rest()
         if t == "return":
+            if e[1] is None and self.mut_self:
+                return self.ret_lines("self", ctx)
             val = e[1] if e[1] is not None else ["unit"]
             return self.ex(val, lambda v: self.ret_lines(v, ctx))
         if t == "continue":
@@ -1115,7 +1138,9 @@ class FnTr:
     # ------------------------------------------------------------------ whole function
     def translate(self):
         body = self.fn["body"]
-        if self.mod.profile.get("diags"):
+        if self.mod.profile.get("diags") and self.mut_self:
+            lines = ["let diags : List String := []"] + self.block(body, None, kval=None, kend=lambda: [".ok (self, diags)"])
+        elif self.mod.profile.get("diags"):
             lines = ["let diags : List String := []"] + self.block(body, None, kval=lambda v: [".ok (%s, diags)" % v], kend=lambda: [".ok ((), diags)"])
         elif self.mut_self:
             lines = self.block(body, None, kval=None, kend=lambda: [".ok self"])
@@ -1178,7 +1203,8 @@ class ModTr:
             name = m["owner"] + "." + m["name"]
             if m["owner"] in self.structs and m["name"] in [f[0] for f in self.structs[m["owner"]]["fields"]]:
                 name += "_m"        # a getter named like the field it reads (Lean keeps `S.f` for the projection)
-            self.fns[name] = {"name": name, "generics": [], "params": params, "ret": ret, "body": m["body"], "owner": m["owner"]}
+            mut_self = any(pp[0] == "self" and len(pp) > 2 and pp[1] and pp[2] for pp, tt in m["params"])
+            self.fns[name] = {"name": name, "generics": [], "params": params, "ret": ret, "body": m["body"], "owner": m["owner"], "mut_self": mut_self}
             if m["attrs"]:
                 self.method_notes[name] = m["attrs"]
         for tm in ast.get("trait_methods", []):
